@@ -351,4 +351,57 @@ CHECKS["C18"] = {
             "trusted base: clang 14 ASan/UBSan runtime",
 }
 
+#: sentences appended to the texts above (extensions made after the third
+#: and fourth detection waves)
+EXTRA = {
+    "C01": " The trait is also assigned through a PrototypedFrom attribute; legacy mapped compounds "
+           "(Trait('yes', {...}, List)) are in the grid; the whole lattice is assigned a second time in "
+           "reverse order on the same trait definition and must give the same verdicts and stored results "
+           "(history independence).",
+    "C02": " One-off exhaustive cells: names governed by one wildcard declaration with static handlers "
+           "(all histories up to length 3 over 3 names x 2 values on two instances); two instances carrying "
+           "a same-named instance trait with different comparison modes. The last bulk route is part of the "
+           "state key (trait_setq switches a hidden per-object mode).",
+    "C03": " Validation must leave the caller's own tuple alone; cells with a Map whose mapping is changed "
+           "after the trait was defined.",
+    "C04": " Owners are collection-like (falsy while the container is empty); whole-value assignment also "
+           "with a detached deep copy of the trait's own value as carrier of the items.",
+    "C05": " Right-hand sides include the list itself and replacements by equal values of another type "
+           "(change = another value or type at some position); a bare mode has no notifier at all; the "
+           "owner is falsy while its list is empty.",
+    "C06": " A bare mode has no notifier at all; the owner is falsy while its dict is empty.",
+    "C07": " A bare mode has no notifier at all; the owner is falsy while its set is empty; the trait value "
+           "itself is shallow-copied too.",
+    "C08": " One-off exhaustive cells: a change handler (the observe handler itself, or an on_trait_change "
+           "handler registered before / after the observer) re-assigns the observed link while the "
+           "assignment is being dispatched (all start/new/replacement combinations over the pool); an "
+           "observable constant default (Any(obj)) is one of the expressions.",
+    "C10": " A dynamic Range whose number type follows the instance's bounds is among the default kinds "
+           "(floats are compared typed).",
+    "C11": " A variant attaches and detaches the deferring attribute's handlers during the history; a "
+           "history ending in a refused write is kept apart from the unchanged state.",
+    "C12": " Also a cached property whose value is None most of the time and a dependency holding values "
+           "whose == raises AttributeError.",
+    "C13": " One-off cells: a trait_added listener adds an instance trait for the very name whose first "
+           "access announced it (that access is already governed by the instance trait); the _items "
+           "companion of a removed List instance trait is compared with a control instance that never had "
+           "one. The instance-trait tables are part of the state key.",
+    "C14": " A trait nobody read before the copy, with a default that differs per computation, must read "
+           "the same on original and copy; round-tripped definitions are also driven through base_trait, "
+           "validate_trait and clone_traits.",
+    "C16": " One-off cells: a list of extended names registered and removed in every grouping and order "
+           "(5 x 5 forms).",
+    "C17": " Late registration also of a class with the protocol an offer adapts from.",
+    "C18": " Two further cells: a default replaced by post_setattr during the first read; an "
+           "AttributeError in a default method with warnings turned into errors.",
+    "C19": " A fifth injected exception is a RuntimeError whose first argument is not a string.",
+    "C20": " One-off exhaustive cells: y derived from x by a change handler on one object with x and y "
+           "linked in all 15 style combinations (all histories up to length 2 / 3 over 12 assignments); the "
+           "style of a link changed by a second sync_trait call without removal. A history ending in a "
+           "refused push is kept apart from the unchanged state; thorough uses the reduced menu at its "
+           "last level.",
+}
+for _k, _v in EXTRA.items():
+    CHECKS[_k]["text"] += _v
+
 NOT_CLAIMED = {}
